@@ -10,6 +10,7 @@ import (
 	"testing"
 
 	"github.com/bilibili/smgo/sm2"
+	"verif/guard"
 	"verif/refs/sm2ref"
 	"verif/vx"
 )
@@ -25,13 +26,27 @@ type c12opts struct {
 	// Served (genkey): the stream is delivered by a servedReader (answers produced by another goroutine while the
 	// caller's stack is moved) and the call is made on a fresh goroutine
 	Served bool
+	// DataErr (genkey): the last bytes of the stream arrive together with io.EOF
+	DataErr bool
 }
+
+var c12ro = guard.NewRO(2)
 
 func c12eval(r *vx.R, c c12case) {
 	r.Eval(1)
 	a := make([][]byte, len(c.Args))
 	for i, s := range c.Args {
 		a[i] = vx.UnHex(s)
+	}
+	if c.Fn == "testpriv" || c.Fn == "derive" || c.Fn == "oncurve" {
+		// queries only read their arguments: the arguments live in memory the process may not write (a store into an
+		// input, even one that is undone before the call returns, faults)
+		c12ro.Reset()
+		for i := range a {
+			a[i] = c12ro.Put(a[i])
+		}
+		c12ro.Seal()
+		defer c12ro.Reset()
 	}
 	switch c.Fn {
 	case "genkey":
@@ -40,7 +55,19 @@ func c12eval(r *vx.R, c c12case) {
 		var priv, x, y []byte
 		var err error
 		var kind, msg string
-		if c.Served {
+		if c.DataErr {
+			// the stream ends with the first acceptable candidate, and the Read that delivers its last bytes reports the
+			// end of the stream in the same call (n > 0 together with io.EOF - what iotest.DataErrReader does)
+			used := 0
+			for _, cand := range a {
+				used += 32
+				if sm2ref.ValidKey(bi(cand)) {
+					break
+				}
+			}
+			rd.data = rd.data[:used]
+			kind, msg = vx.Try(func() { priv, x, y, err = sm2.GenerateKey(&dataErrReader{rd}) })
+		} else if c.Served {
 			onFresh(func() { kind, msg = vx.Try(func() { priv, x, y, err = sm2.GenerateKey(&servedReader{inner: rd}) }) })
 		} else {
 			kind, msg = vx.Try(func() { priv, x, y, err = sm2.GenerateKey(rd) })
@@ -90,7 +117,7 @@ func c12eval(r *vx.R, c c12case) {
 		}
 	case "testpriv":
 		var got int
-		kind, msg := vx.Try(func() { got = sm2.TestPrivateKey(a[0]) })
+		kind, msg := vx.TryFault(func() { got = sm2.TestPrivateKey(a[0]) })
 		if kind != "" {
 			r.Violation("keys:testpriv:panic", msg, c)
 			return
@@ -107,7 +134,7 @@ func c12eval(r *vx.R, c c12case) {
 		var x, y []byte
 		var err error
 		keep := append([]byte{}, a[0]...)
-		kind, msg := vx.Try(func() { x, y, err = sm2.DerivePublic(a[0]) })
+		kind, msg := vx.TryFault(func() { x, y, err = sm2.DerivePublic(a[0]) })
 		if kind != "" {
 			r.Violation("keys:derive:panic:"+valClass(bi(a[0])), fmt.Sprintf("DerivePublic(%x) panicked: %s", a[0], msg), c)
 			return
@@ -209,7 +236,11 @@ func c12eval(r *vx.R, c c12case) {
 	case "oncurve":
 		var got bool
 		kx, ky := append([]byte{}, a[0]...), append([]byte{}, a[1]...)
-		kind, msg := vx.Try(func() { got = sm2.CheckOnCurve(a[0], a[1]) })
+		kind, msg := vx.TryFault(func() { got = sm2.CheckOnCurve(a[0], a[1]) })
+		if kind == "fault" {
+			r.Violation("keys:oncurve:writes-read-only-input", "CheckOnCurve stored into one of its coordinates (placed in read-only memory): "+msg, c)
+			return
+		}
 		if kind != "" {
 			r.Violation("keys:oncurve:panic", msg, c)
 			return
@@ -271,6 +302,11 @@ func TestVX_C12(t *testing.T) {
 			c.Served = true
 			c.Shape += ":served"
 			c12eval(r, c)
+			if len(c.Args) <= 8 {
+				c.Served, c.DataErr = false, true
+				c.Shape += ":data+eof"
+				c12eval(r, c)
+			}
 		}
 	}
 	kb := keyBoundary()
